@@ -198,7 +198,7 @@ func c08Result(cx *explore.Ctx, q run.Query, r run.Result) {
 			for _, t := range matches {
 				if t.Addr.String() == cd.Label {
 					visible = true // absolute names are visible everywhere (own-block rule checked below)
-				} else if t.TargetableFromRangePtr == nil || (t.TargetableFromRangePtr.Start.Byte <= q.Pos.Byte && q.Pos.Byte <= t.TargetableFromRangePtr.End.Byte) {
+				} else if t.TargetableFromRangePtr == nil || (t.TargetableFromRangePtr.Filename == cx.Case.File && t.TargetableFromRangePtr.Start.Byte <= q.Pos.Byte && q.Pos.Byte <= t.TargetableFromRangePtr.End.Byte) {
 					visible = true
 				}
 			}
